@@ -40,6 +40,7 @@ import (
 	"oras.land/oras-go/v2/internal/ioutil"
 	"oras.land/oras-go/v2/internal/spec"
 	"oras.land/oras-go/v2/internal/syncutil"
+	"oras.land/oras-go/v2/internal/verifhook"
 	"oras.land/oras-go/v2/registry"
 	"oras.land/oras-go/v2/registry/remote/auth"
 	"oras.land/oras-go/v2/registry/remote/errcode"
@@ -229,6 +230,7 @@ func (r *Repository) SetReferrersCapability(capable bool) error {
 	} else {
 		state = referrersStateUnsupported
 	}
+	verifhook.Point("remote.SetReferrersCapability")
 	if swapped := atomic.CompareAndSwapInt32(&r.referrersState, referrersStateUnknown, state); !swapped {
 		if fact := r.loadReferrersState(); fact != state {
 			return fmt.Errorf("%w: current capability = %v, new capability = %v",
@@ -242,6 +244,7 @@ func (r *Repository) SetReferrersCapability(capable bool) error {
 
 // setReferrersState atomically loads r.referrersState.
 func (r *Repository) loadReferrersState() referrersState {
+	verifhook.Point("remote.loadReferrersState")
 	return atomic.LoadInt32(&r.referrersState)
 }
 
